@@ -236,6 +236,18 @@ pub fn run(ctx: &mut Ctx) -> Report {
 		if real != model {
 			rep.disagree("C13:str-bytes", "model and implementation differ on a byte-level constructor", format!("request: {}\nreal:  {}\nmodel: {}", line, real, model));
 		}
+		{
+			let e = match kind {
+				"bmp" => BmpString::from_utf16be(b.clone()).err(),
+				_ => UniversalString::from_utf32be(b.clone()).err(),
+			};
+			let real = match e { Some(e) => tagged("err", &[hex(e.to_string().as_bytes())]), None => "ok".to_string() };
+			let line = format!("str-bytes-err {} {}", kind, hex(&b));
+			let model = drv.ask(&line);
+			if real != model {
+				rep.disagree("C13:str-bytes-err", "model and implementation differ on the error of a byte-level constructor", format!("request: {}\nreal:  {}\nmodel: {}", line, real, model));
+			}
+		}
 		// specification: accepted iff well-formed encoding of alphabet characters
 		let want = match decode_stored(kind, &b) {
 			Some(t) => t.chars().all(|c| in_alphabet(kind, c)),
@@ -300,6 +312,122 @@ pub fn run(ctx: &mut Ctx) -> Report {
 				}
 			}
 		}
+	}
+	// 5. the other ways in and out of the five types: TryFrom<String>, FromStr, and for the types
+	// that hand out text, as_str / AsRef<str> / Display / PartialEq with str, String, &str, &String.
+	// All ways in must agree (same acceptance, same stored bytes, same error), all ways out must
+	// return the original text.
+	{
+		use std::str::FromStr;
+		fn err_of<T>(r: &Result<T, rcgen::Error>) -> Option<String> {
+			r.as_ref().err().map(|e| format!("{:?}", e))
+		}
+		let mut texts: Vec<String> = vec!["".into(), "a".into(), "Test CA 1".into(), "a?b".into(), "a*b".into(), "a@b".into(), "\u{7f}".into(), "\u{80}".into(), "\u{0}".into(), "\u{1f}".into(), "\u{ffff}".into(), "\u{fffe}".into(), "\u{10000}".into(), "gr\u{fc}n".into(), "x".repeat(300)];
+		for kind in KINDS {
+			for _ in 0..(if ctx.thorough { 400 } else { 40 }) {
+				texts.push(random_text(&mut rng, kind));
+			}
+		}
+		for t in &texts {
+			for kind in KINDS {
+				rep.case(&format!("entry-points {} {}", kind, hex(t.as_bytes())), true);
+				let mut bad: Vec<String> = Vec::new();
+				macro_rules! ways_in {
+					($ty:ty, $bytes:expr, $third:expr) => {{
+						let a = <$ty>::try_from(t.as_str());
+						let b = <$ty>::try_from(t.clone());
+						let c: Result<$ty, rcgen::Error> = $third;
+						let f = $bytes;
+						let ab = a.as_ref().ok().map(|x| f(x));
+						if ab != b.as_ref().ok().map(|x| f(x)) || ab != c.as_ref().ok().map(|x| f(x)) {
+							bad.push("TryFrom<&str>, TryFrom<String> and FromStr store different bytes or differ in acceptance".into());
+						}
+						if err_of(&a) != err_of(&b) || err_of(&a) != err_of(&c) {
+							bad.push(format!("TryFrom<&str>, TryFrom<String> and FromStr return different errors: {:?} / {:?} / {:?}", err_of(&a), err_of(&b), err_of(&c)));
+						}
+						if a.is_ok() != t.chars().all(|ch| in_alphabet(kind, ch)) {
+							bad.push("acceptance differs from alphabet membership".into());
+						}
+						a
+					}};
+				}
+				macro_rules! ways_out {
+					($v:expr) => {{
+						let v = $v;
+						let other = format!("{}x", t);
+						let same_s: String = t.clone();
+						let as_ref: &str = v.as_ref();
+						if v.as_str() != t.as_str() || as_ref != t.as_str() || v.to_string() != *t {
+							bad.push(format!("as_str / as_ref / Display do not return the text: {:?} / {:?} / {:?}", v.as_str(), as_ref, v.to_string()));
+						}
+						if !(v == *t.as_str()) || !(v == same_s) || !(v == t.as_str()) || !(v == &same_s) {
+							bad.push("== with str / String / &str / &String is false on the text itself".into());
+						}
+						if v == *other.as_str() || v == other || v == other.as_str() || v == &other {
+							bad.push("== with str / String / &str / &String is true on another text".into());
+						}
+						let w = v.clone();
+						if w != v {
+							bad.push("a clone compares unequal".into());
+						}
+					}};
+				}
+				match kind {
+					"printable" => {
+						if let Ok(v) = ways_in!(PrintableString, |x: &PrintableString| x.as_str().as_bytes().to_vec(), PrintableString::from_str(t.as_str())) {
+							ways_out!(v);
+						}
+					},
+					"ia5" => {
+						if let Ok(v) = ways_in!(Ia5String, |x: &Ia5String| x.as_str().as_bytes().to_vec(), Ia5String::from_str(t.as_str())) {
+							ways_out!(v);
+						}
+					},
+					"teletex" => {
+						if let Ok(v) = ways_in!(TeletexString, |x: &TeletexString| x.as_bytes().to_vec(), TeletexString::from_str(t.as_str())) {
+							if v.as_bytes() != t.as_bytes() {
+								bad.push("as_bytes is not the text".into());
+							}
+							ways_out!(v);
+						}
+					},
+					"bmp" => {
+						if let Ok(v) = ways_in!(BmpString, |x: &BmpString| x.as_bytes().to_vec(), BmpString::from_str(t.as_str())) {
+							if BmpString::from_utf16be(v.as_bytes().to_vec()).ok().as_ref() != Some(&v) {
+								bad.push("from_utf16be(as_bytes()) is not the value".into());
+							}
+						}
+					},
+					_ => {
+						if let Ok(v) = ways_in!(UniversalString, |x: &UniversalString| x.as_bytes().to_vec(), UniversalString::try_from(t.clone())) {
+							if UniversalString::from_utf32be(v.as_bytes().to_vec()).ok().as_ref() != Some(&v) {
+								bad.push("from_utf32be(as_bytes()) is not the value".into());
+							}
+						}
+					},
+				}
+				// the error a refused text yields, against the model (which payload is echoed)
+				{
+					let real = match kind {
+						"printable" => PrintableString::try_from(t.as_str()).err(),
+						"ia5" => Ia5String::try_from(t.as_str()).err(),
+						"teletex" => TeletexString::try_from(t.as_str()).err(),
+						"bmp" => BmpString::try_from(t.as_str()).err(),
+						_ => UniversalString::try_from(t.as_str()).err(),
+					};
+					let real = match real { Some(e) => tagged("err", &[hex(e.to_string().as_bytes())]), None => "ok".to_string() };
+					let line = format!("str-ctor-err {} {}", kind, hex(t.as_bytes()));
+					let model = drv.ask(&line);
+					if real != model {
+						rep.disagree("C13:str-ctor-err", "model and implementation differ on the error of a string constructor", format!("request: {}\nreal:  {}\nmodel: {}", line, real, model));
+					}
+				}
+				for b in bad {
+					rep.violate(&format!("C13:entry-points:{}", kind), "the ways into and out of a string type disagree", format!("type {} text {:?} ({}): {}", kind, t, hex(t.as_bytes()), b));
+				}
+			}
+		}
+		rep.exhaustive.push("string types: TryFrom<&str> / TryFrom<String> / FromStr agree on acceptance, stored bytes and error; as_str / AsRef / Display / == (4 forms) return the text; from_utf16be / from_utf32be invert as_bytes".into());
 	}
 	rep.add("driver_requests", drv.requests);
 	rep
